@@ -75,8 +75,8 @@ type Features struct {
 	// NoMatchAgainst, NoShowDescribe: MySQL without MATCH .. AGAINST / without SHOW and DESCRIBE
 	// (C15: no document says whether AGAINST is a function or DESCRIBE t a table position)
 	NoMatchAgainst, NoShowDescribe bool
-	// NoSome: never spell the ANY quantifier SOME
-	NoSome bool
+	// NoSome: never spell the ANY quantifier SOME; NoTupleIn: no (a, b) IN ((1, 2), ...) rows
+	NoSome, NoTupleIn bool
 	// Flat: no nested query anywhere and no statement-starting keyword after the
 	// first token (SELECT/INSERT ... VALUES/DELETE only): the sub-grammar C12 quantifies over
 	Flat bool
